@@ -530,6 +530,9 @@ func c15Drive(c *mc.Ctx, b *c15Base, stream []byte, digest string, limit uint64,
 		defSize = b.rs + 33
 	case 3:
 		defSize = 2
+	case 4:
+		defSize = 1
+		rd.noDev = true
 	}
 	buf := c15BufPool.Get().([]byte)
 	defer c15BufPool.Put(buf)
@@ -553,6 +556,30 @@ func c15Drive(c *mc.Ctx, b *c15Base, stream []byte, digest string, limit uint64,
 		return n, err
 	}
 	const maxReads = 400
+	if prof == 4 {
+		// a consumer that peeks with a small Read and hands the rest to io.Copy (which uses the decoder's
+		// WriteTo if it has one); io.Copy's nil error is the clean end of the stream
+		n, err := read()
+		o.pre = append(o.pre, buf[:n]...)
+		if err != nil {
+			o.firstErr = err
+		} else {
+			w := &c14PlainWriter{}
+			_, cerr := io.Copy(w, dec)
+			o.reads++
+			o.pre = append(o.pre, w.b...)
+			o.firstErr = cerr
+			if cerr == nil {
+				o.firstErr = io.EOF
+			}
+		}
+		for i := 0; i < 3; i++ {
+			n, err := read()
+			o.post = append(o.post, buf[:n]...)
+			o.postErrs = append(o.postErrs, err)
+		}
+		return
+	}
 	for {
 		if o.reads >= maxReads {
 			o.capHit = true
@@ -645,7 +672,7 @@ func c15RunShapes(c *mc.Ctx, shapeList []c15Shape, hname string) {
 	if sh.n%sh.rs == 0 && !(sh.n == 0 && di == 0) {
 		emptyFn = c.Free(2, "emptyfinal") == 1
 	}
-	prof := c.Free(4, "profile")
+	prof := c.Free(5, "profile")
 	b := c15GetBase(c.Seed, di, sh.rs, sh.n, 0, emptyFn)
 	sib := c15GetBase(c.Seed, di, sh.rs, sh.n, 1, emptyFn)
 
@@ -935,7 +962,7 @@ func init() {
 	register(&mc.Property{
 		ID:    "C15",
 		Level: "model_checking",
-		Rule: "choice-tree enumeration with a deviation bound (C15/decoder: 1 quick, 2 thorough; C15/decoder-pairs-small: 2 in the quick tier over 6 small bases; C15/record-size-limit: all-free sweep of ~190-270 size-field values x limit x reader profile in supervised subprocesses). Free: draft 02/03 x (rs 1..3 x every length 0..3rs+1, rs 34 x length 33..35) x {honest, empty-last-record shape} x 4 environment profiles. Deviations: record size limit {16384, rs, rs-1}; ~16 digest variants; edit 1 over the chunk sequence of the honest stream (delete/duplicate/swap/replace/insert chunk, append suffix, 12 size-header values, truncation after every byte, every single bit flip); edit 2 after a structural edit 1 (quick tier: its bit flips reduced to the 64 size-field bits plus one bit per other byte); per underlying Read call {all, 1 byte, data+EOF, injected error with 0 or 1 byte}; per decoder Read the caller buffer {4096,0,1,2,rs,rs+33}. " +
+		Rule: "choice-tree enumeration with a deviation bound (C15/decoder: 1 quick, 2 thorough; C15/decoder-pairs-small: 2 in the quick tier over 6 small bases; C15/record-size-limit: all-free sweep of ~190-270 size-field values x limit x reader profile in supervised subprocesses). Free: draft 02/03 x (rs 1..3 x every length 0..3rs+1, rs 34 x length 33..35) x {honest, empty-last-record shape} x 5 environment profiles (the fifth: one 1-byte Read, then io.Copy of the rest into a plain writer). Deviations: record size limit {16384, rs, rs-1}; ~16 digest variants; edit 1 over the chunk sequence of the honest stream (delete/duplicate/swap/replace/insert chunk, append suffix, 12 size-header values, truncation after every byte, every single bit flip); edit 2 after a structural edit 1 (quick tier: its bit flips reduced to the 64 size-field bits plus one bit per other byte); per underlying Read call {all, 1 byte, data+EOF, injected error with 0 or 1 byte}; per decoder Read the caller buffer {4096,0,1,2,rs,rs+33}. " +
 			"Every execution decodes with the real decoder, keeps reading 3 times after the first error, and is judged against refmice.DecodeDetail. " +
 			"A case is non-trivial when the artifact deviates from the honest one and, per the reference, passes digest-independent header checks so that the hash chain decides (distinct by hash of draft, digest value, stream, limit). States are distinct (artifact, environment) scenarios.",
 		Assumptions: []string{
